@@ -330,6 +330,22 @@ func TestVfReplyShape(t *testing.T) {
 		out.write([]map[string]interface{}{{"ev": "ReplyBatch", "id": id, "cfg": batchR.cfg.json(), "frames": batchFrames, "status": batchStatus, "recs": rs}})
 		batchR, batchFrames, batchStatus = nil, nil, nil
 	}
+	var heldR *vfRcv
+	var held []scan.Result
+	var heldFrames [][]int
+	var heldStatus []string
+	flushHeld := func() {
+		if heldR == nil {
+			return
+		}
+		rs := []map[string]interface{}{}
+		for _, x := range held {
+			rs = append(rs, vfRecOf(heldR.cfg.Scan, []scan.Result{x}))
+		}
+		id++
+		out.write([]map[string]interface{}{{"ev": "ReplyBatch", "id": id, "cfg": heldR.cfg.json(), "frames": heldFrames, "status": heldStatus, "recs": rs}})
+		heldR, held, heldFrames, heldStatus = nil, nil, nil, nil
+	}
 	emit := func(r *vfRcv, frame []byte) {
 		if _, async := r.proc.(*vfAsyncProc); async {
 			if batchR != r || len(batchFrames) >= 600 {
@@ -345,8 +361,18 @@ func TestVfReplyShape(t *testing.T) {
 		id++
 		status, recs, text := r.through(frame)
 		out.write([]map[string]interface{}{{"ev": "Reply", "id": id, "cfg": r.cfg.json(), "bytes": vfInts(frame), "status": status, "nrec": len(recs), "rec": vfRecOf(r.cfg.Scan, recs), "text": text}})
+		// the result objects are also kept and read a second time when the receiver has seen all its frames, as a logger behind a
+		// queue would read them: a record must not change after it was handed over
+		if heldR != r {
+			flushHeld()
+			heldR = r
+		}
+		held = append(held, recs...)
+		heldFrames = append(heldFrames, vfInts(frame))
+		heldStatus = append(heldStatus, status)
 	}
 	defer flush()
+	defer flushHeld()
 	type mode struct {
 		vpn, hasNet, ports bool
 	}
@@ -448,6 +474,7 @@ func TestVfReplyShape(t *testing.T) {
 		emit(r, vfLink(false, 0x0800, vfIP4(5, 6, 0, 64, srcs[0], vfTCP(80, 40000, 0x12, 5, nil))))
 	}
 	flush()
+	flushHeld()
 	fmt.Printf("VF_RUNS=%d\n", id)
 }
 
